@@ -77,4 +77,30 @@ def run(ctx, rs: RuleSet, prop: str, repo: str, seed: int) -> Dict:
   print(f'{prop}: self-test {outcomes["PASS"]}/{len(cases)} cases as '
         f'expected ({outcomes["FAIL"]} mismatches, '
         f'{outcomes["BROKEN-CASE"]} not applicable)')
+  # behaviour-preserving rewritings of the whole tree: this property's check
+  # must stay silent on both
+  probes = {}
+  try:
+    norm = st.run_normalised([prop])
+    probes['ast_unparse_normalised_copy'] = 'silent' if all(
+        ok for _, ok, _ in norm) else 'NOT SILENT'
+    alpha = importlib.import_module('alpha')
+    alpha.REPO = repo
+    import shutil
+    import tempfile
+    tmp = tempfile.mkdtemp(prefix='fdlstatic-alpha-')
+    try:
+      n = alpha.make_variant(tmp)
+      _, ok, rc, _ = alpha.run_check(tmp, prop)
+      probes['alpha_renamed_copy'] = (
+          f'{n} locals renamed: ' + ('silent' if ok else f'NOT SILENT rc={rc}'))
+    finally:
+      shutil.rmtree(tmp, ignore_errors=True)
+  except Exception as e:  # pylint: disable=broad-except
+    probes['error'] = repr(e)
+  for k, v in probes.items():
+    if 'NOT SILENT' in v:
+      print(f'SELFTEST-MISMATCH property={prop} probe={k} ({v})')
+  result['behaviour_preserving_probes'] = probes
+  print(f'{prop}: probes {probes}')
   return result
